@@ -138,11 +138,37 @@ def gen_history(rng, cfg=None):
             m = rng.choice(manifests)
             m['entries'] = m['entries'] + [{'tag': 'DATA', 'path': 'vanished-%d' % rng.randrange(9), 'size': 3,
                                             'sums': {'MD5': '0' * 32}}]
+    # targeted prior state: one file listed in a sub-Manifest AND in a Manifest above it, the file
+    # edited in place (same size), and only one of the two Manifests refreshed afterwards
+    special_hashes = None
+    if prior != 'absent' and rng.random() < 0.12:
+        subs = [m for m in manifests if '/' in m['p'] and any(e.get('tag') in ('DATA', 'MISC', 'EBUILD') and 'hashes' in e for e in m['entries'])]
+        if subs:
+            child = rng.choice(subs)
+            cdir = os.path.dirname(child['p'])
+            ce = rng.choice([e for e in child['entries'] if e.get('tag') in ('DATA', 'MISC', 'EBUILD') and 'hashes' in e])
+            full = cdir + '/' + ce['path']
+            ancestors = [m for m in manifests if m is not child and (os.path.dirname(m['p']) == '' or cdir.startswith(os.path.dirname(m['p']) + '/'))
+                         and os.path.basename(m['p']).startswith('Manifest')]
+            if ancestors and ce['hashes']:
+                par = rng.choice(ancestors)
+                pdir = os.path.dirname(par['p'])
+                rel = os.path.relpath(full, pdir or '.')
+                hs = list(ce['hashes']) if rng.random() < 0.6 else list(ce['hashes'])[:1]
+                par['entries'] = par['entries'] + [{'tag': ce['tag'], 'path': rel, 'hashes': hs}]
+                fresh = par if rng.random() < 0.6 else child
+                first_edits = first_edits + [{'m': 'flip', 'p': full, 'pos': rng.randrange(0, 30), 'bit': 1},
+                                             {'m': 'manifest', 'p': fresh['p'], 'entries': fresh['entries']}]
+                special_hashes = list(ce['hashes'])
     rounds = []
     nr = rng.choice([1, 1, 2, 2, 3, 4])
     for i in range(nr):
         eds = first_edits if i == 0 else gen_edits(rng, info, rng.choice([0, 1, 2, 3]))
         u = gen_update_opts(rng, info, prior if i == 0 else 'exact', allow_sub=cfg.get('allow_sub', True))
+        if special_hashes and i == 0:
+            u['hashes'] = special_hashes      # the requested set equals the existing one: nothing else is dirty
+            u.pop('force', None)
+            u.pop('path', None)
         rounds.append({'edits': eds, 'update': u})
     return {'order_key': '%016x' % rng.getrandbits(64), 'top': 'Manifest', 'tree': tree,
             'manifests': manifests, 'rounds': rounds}
